@@ -326,6 +326,10 @@ def compare(scen, result, answer):
         return 'diverge', answer
     if answer.startswith('IMPOSSIBLE'):
         return 'impossible', answer
+    if answer.startswith('FUELOUT'):
+        # a readdir loop of the model stopped because its fuel ran out (MainSt.fuelOut), not because the directory
+        # stream ended: the model's run is a truncation of the real one - a divergence, never an agreement
+        return 'diverge', 'the model ran out of fuel in a readdir loop: ' + answer
     if not answer.startswith('OK'):
         return 'bad', answer[:300]
     m = re.match(r'OK exit=(\d+) reject=(\w+)( EXTRA \d+ next=.*?)? FS (.*?) LOG ?(.*)$', answer)
